@@ -25,6 +25,13 @@ var props = map[string]propCfg{
 			"autocomplete / history-autosuggest off (their documented purpose is to act on redisplay); keyboard-macro commands are left to C18; vi-select-inside is only reachable through its prefix bind",
 			"two known findings are excluded by construction (schedules always cut after C-c / C-g; vi operator + character text objects / j,k replaced) and reported from dedicated regress cases",
 		}},
+	"C07": {ID: "C07", Level: "exploration",
+		Tests: []testCfg{{Name: "TestC07", Quick: 4800, Thorough: 100000, QShards: 16, TShards: 16}},
+		Assumptions: []string{
+			"one command per read; cursor positions are not part of the statement and are not compared",
+			"line identity = history slot, tracked by the walk index model (previous/next-history and vi k/j clamp at the ends)",
+			"undo may merge consecutive typed characters into one step (every buffer it produces must still have been shown)",
+		}},
 	"C10": {ID: "C10", Level: "fault_enumeration",
 		Tests: []testCfg{{Name: "TestC10", Quick: 1600, Thorough: 32000, QShards: 16, TShards: 16}},
 		Fuzz:  []fuzzCfg{{Name: "FuzzC10File", Secs: 90}},
